@@ -22,9 +22,7 @@ theorem containerValue_lt (h : Placed bb o w) : containerValue bb.order bb.bytes
 
 theorem bitBlock_ok_of_placed (h : Placed bb o w) : bb.ok = true := by
   unfold BitBlock.ok
-  split
-  · rename_i hn; simp [h.null_ok hn]
-  · simp [h.len]
+  simp [h.len]
 
 theorem bitBlock_readUInt_eq (h : Placed bb o w) :
     bb.readUInt = some (containerValue bb.order bb.bytes) := by
